@@ -200,6 +200,46 @@ proof! {
     }
 }
 
+// k = 6 variant (thorough), spot: for ANY 6 messages fed after `new(s)`, the admitted ones form an unbroken chain
+// (first covers s+1, each next has U == previous admitted u + 1); everything else was either
+// stale w.r.t. the last admitted id or surfaced as a terminal error.
+proof! {
+    #[kani::unwind(26)]
+    fn c06_t_spot_chain_safety_k6() {
+        let s: u64 = any_u64();
+        assume(s < u64::MAX - 1);
+        let mut seq = BinanceSpotOrderBookL2Sequencer::new(s);
+        let mut last_admitted: u64 = s;
+        let mut any_admitted = false;
+        let mut admitted = 0usize;
+        let mut errors = 0usize;
+        let mut i = 0;
+        while i < 6 {
+            let first: u64 = any_u64();
+            let last: u64 = any_u64();
+            assume(last < u64::MAX);
+            match spot_step(&mut seq, first, last) {
+                Verdict::Admitted => {
+                    if any_admitted {
+                        assert!(first == last_admitted + 1, "C06 spot: chain broken between admitted updates");
+                    } else {
+                        assert!(first <= s + 1 && last >= s + 1, "C06 spot: first admitted update does not cover snapshot id + 1");
+                    }
+                    any_admitted = true;
+                    last_admitted = last;
+                    admitted += 1;
+                }
+                Verdict::Stale => assert!(last <= last_admitted),
+                Verdict::Error => errors += 1,
+            }
+            assert!(seq.last_update_id == last_admitted, "C06 spot: reported sequence is the last admitted update's");
+            i += 1;
+        }
+        kani::cover!(admitted == 6, "all admitted");
+        kani::cover!(admitted == 2 && errors == 2, "mixed");
+    }
+}
+
 // k-step, spot, liveness direction: strictly older messages, then a gap-free in-order chain, never errors
 // and every chain message that carries news is admitted.
 proof! {
@@ -265,6 +305,42 @@ proof! {
             i += 1;
         }
         kani::cover!(admitted == K, "all admitted");
+        kani::cover!(admitted == 2 && errors == 2, "mixed");
+    }
+}
+
+proof! {
+    #[kani::unwind(26)]
+    fn c06_t_futures_chain_safety_k6() {
+        let s: u64 = any_u64();
+        let mut seq = BinanceFuturesUsdOrderBookL2Sequencer::new(s);
+        let mut last_admitted: u64 = s;
+        let mut any_admitted = false;
+        let mut admitted = 0usize;
+        let mut errors = 0usize;
+        let mut i = 0;
+        while i < 6 {
+            let first: u64 = any_u64();
+            let last: u64 = any_u64();
+            let prev: u64 = any_u64();
+            match fut_step(&mut seq, first, last, prev) {
+                Verdict::Admitted => {
+                    if any_admitted {
+                        assert!(prev == last_admitted, "C06 futures: chain broken between admitted updates");
+                    } else {
+                        assert!(first <= s && last >= s, "C06 futures: first admitted update does not cover the snapshot id");
+                    }
+                    any_admitted = true;
+                    last_admitted = last;
+                    admitted += 1;
+                }
+                Verdict::Stale => assert!(last < last_admitted),
+                Verdict::Error => errors += 1,
+            }
+            assert!(seq.last_update_id == last_admitted);
+            i += 1;
+        }
+        kani::cover!(admitted == 6, "all admitted");
         kani::cover!(admitted == 2 && errors == 2, "mixed");
     }
 }
